@@ -127,9 +127,16 @@ theorem NoDupPairs.read {a : Agent} (hd : NoDupPairs a) :
   exact Prod.ext hpq.1 hpq.2
 
 theorem equal_comm (x y : Cand) : x.equal y = y.equal x := by
+  have key : ∀ x y : Cand, x.equal y = true → y.equal x = true := by
+    intro x y
+    simp only [Cand.equal, Cand.taEqual, Bool.and_eq_true, beq_iff_eq, Bool.or_eq_true, Bool.not_eq_true']
+    rintro ⟨⟨⟨⟨h1, h2⟩, h5, h6⟩, h3⟩, h4⟩
+    refine ⟨⟨⟨⟨h1.symm, h2.symm⟩, h5.symm, ?_⟩, h3.symm⟩, h4.symm⟩
+    rcases h6 with h6 | h6
+    · exact Or.inl (h1 ▸ h6)
+    · exact Or.inr h6.symm
   rw [Bool.eq_iff_iff]
-  simp only [Cand.equal, Cand.taEqual, Bool.and_eq_true, beq_iff_eq]
-  constructor <;> (rintro ⟨⟨⟨h1, h2⟩, h3⟩, h4⟩; exact ⟨⟨⟨h1.symm, h2.symm⟩, h3.symm⟩, h4.symm⟩)
+  exact ⟨key x y, key y x⟩
 
 /-- … and in the words of the property: no two listed pairs have `Equal` local ends and `Equal` remote ends -/
 theorem NoDupPairs.read_equal {a : Agent} (h : Inv a) (hd : NoDupPairs a) :
